@@ -207,16 +207,26 @@ func vpNewBuilder(opts Options) *Builder {
 	return b
 }
 
+var vpBuildStaleAt = -1
+
 var vpBlockSizes = [3]int{40, 72, 1024} // 1 entry per block / about 2 per block / one block
 
 // vpBuild runs the real builder over ents (recording the block each entry went to), the real
 // Finish and the real OpenInMemoryTable.
 func vpBuild(ents []vpEnt, blockSize int, id uint64, tag string) (*Builder, *Table) {
 	b := vpNewBuilder(Options{BlockSize: blockSize, TableSize: 1 << 20, ChkMode: options.NoVerification})
+	// vpBuildStaleAt >= 0: that entry is added through AddStaleKey (what compaction does for
+	// tombstones, expired and superseded versions): it is an ordinary entry of the table - it is
+	// iterated, hashed and counts for the max version - only the stale-data size differs
 	for i := range ents {
-		b.Add(ents[i].key, ents[i].v, 0)
+		if i == vpBuildStaleAt {
+			b.AddStaleKey(ents[i].key, ents[i].v, 0)
+		} else {
+			b.Add(ents[i].key, ents[i].v, 0)
+		}
 		ents[i].blk = len(b.blockList)
 	}
+	vpBuildStaleAt = -1
 	buf := b.Finish()
 	opts := *b.opts
 	t, err := OpenInMemoryTable(buf, id, &opts)
@@ -778,6 +788,13 @@ func VpHBuilderMeta() {
 	n := 1 + vpChoose("n", maxN)
 	bs := vpBlockSizes[vpChoose("bs", len(vpBlockSizes))]
 	ents := vpGenEntries(n, g)
+	if vpParam("meta.stale", 1) == 1 {
+		// none, or one arbitrary entry, goes in as a stale key
+		vpBuildStaleAt = vpChoose("stale-at", n+1) - 1
+		if vpBuildStaleAt >= 0 {
+			vpCover("meta.stale-key")
+		}
+	}
 	b, t := vpBuild(ents, bs, 1, "C18:meta")
 	if t == nil {
 		return
@@ -794,7 +811,7 @@ func VpHBuilderMeta() {
 			hashes = vpAnd(hashes, b.keyHashes[i] == y.Hash(e.key[:len(e.key)-8]))
 		}
 	}
-	vpAssert(b.maxVersion == maxv, "C18:meta.builder.maxVersion")
+	vpAssert(b.maxVersion == maxv, "C18,C11,C07:meta.builder.maxVersion")
 	vpAssert(len(b.keyHashes) == n, "C18:meta.builder.key-count")
 	vpAssert(hashes, "C18:meta.builder.hash-of-user-key")
 	first := 0
@@ -830,7 +847,7 @@ func VpHBuilderMeta() {
 	// table side (through the real flatbuffers index)
 	vpAssert(bytes.Equal(t.Smallest(), ents[0].key), "C18:meta.table.smallest")
 	vpAssert(bytes.Equal(t.Biggest(), ents[n-1].key), "C18:meta.table.biggest")
-	vpAssert(t.MaxVersion() == maxv, "C18:meta.table.maxVersion")
+	vpAssert(t.MaxVersion() == maxv, "C18,C11,C07:meta.table.maxVersion")
 	vpAssert(int(t.KeyCount()) == n, "C18:meta.table.key-count")
 	vpAssert(t.offsetsLength() == nblk, "C18:meta.table.block-count")
 	vpAssert(int(t.UncompressedSize()) == total, "C18:meta.table.uncompressed-size")
